@@ -14,6 +14,7 @@ mod c08w;
 mod c17;
 mod c17f;
 pub mod c18;
+mod c18rp;
 mod c19;
 mod c19f;
 mod c20;
@@ -63,6 +64,7 @@ pub fn run(engine: &str, toks: Vec<Tok>) -> Vec<Tok> {
         "c16_udp" => c16::udp(toks),
         "c16_front" => c16f::run(toks),
         "c18_session" => c18::session(toks),
+        "c18_rp" => c18rp::run(toks),
         "c12_extract" => c12::extract(toks),
         "c12_peek" => c12::peek(toks),
         "c12_handshake" => c12::handshake(toks),
